@@ -165,7 +165,9 @@ def space(tier):
 
 
 DATECAT = ['20040229', '20030229', '19000229', '20000229', '18000101', '17991231', '20041301', '20040431',
-           '20040430', '99991231', '2004010', '200401011', '2004010a', '']
+           '20040430', '99991231', '2004010', '200401011', '2004010a', '',
+           # halves that are dates of ANOTHER admissible length (6-digit, date+HHMM) or times: a range is two 8-digit dates
+           '040229', '990101', '200402291200', '1200', '120000']
 
 
 def gen(shard):
@@ -222,9 +224,9 @@ def gen(shard):
             for b in DATECAT:
                 for j in ('-', '--', '', ' - ', '- ', ' ', ':'):
                     yield t, a + j + b
-        for a in DATECAT[:6]:
-            for b in DATECAT[:6]:
-                for c in DATECAT[:6]:
+        for a in DATECAT[:6] + DATECAT[14:16]:
+            for b in DATECAT[:6] + DATECAT[14:16]:
+                for c in DATECAT[:6] + DATECAT[14:16]:
                     yield t, a + '-' + b + '-' + c
         for s in ('-', '--', '---', '20040102-', '-20040102', '-20040102-20040103', '20040102-20040103-'):
             yield t, s
@@ -275,7 +277,7 @@ def run(R):
     R.bounds = {'numeric': 'all strings of length <= %d over {0,5,-,.,a,SP} (+ leading +)' % (7 if R.thorough else 6),
                 'dates': 'every YYYYMMDD for 16 boundary years x months 00..13 x days 00..32; every YYMMDD',
                 'times': 'every HHMM, HHMMSS (HH 00..24, MM/SS 00..60), decimals, all digit strings <= 4',
-                'ranges': 'all pairs of a 14-date catalogue x 7 joiners, all triples of 6',
+                'ranges': 'all pairs of a 19-value catalogue (8-, 6-, 12-digit dates, times, malformed) x 7 joiners, all triples of 8',
                 'chars': 'every code point 0..0x17F + 6 beyond, alone and embedded, x {B,E} x {00401,00501}'}
     R.assumptions = ['character tables and value languages are taken from the property statement / ASC X12 basic and extended sets',
                      'charset settings other than B/E and non-string values are outside the quantifier']
